@@ -92,6 +92,11 @@ pub fn layout_with(field: &str, s: &str) -> MetadataWrapper {
         "step-name" => step.name = s.to_string(),
         "inspection-name" => insp.name = s.to_string(),
         "rule-pattern" => pat = s.to_string(),
+        "step-pubkey" => {
+            if let Ok(k) = <in_toto::crypto::KeyId as std::str::FromStr>::from_str(s) {
+                step.pub_keys = vec![k];
+            }
+        }
         "rule-src-prefix" => m.0 = Some(s.to_string()),
         "rule-dst-prefix" => m.1 = Some(s.to_string()),
         "rule-from" => m.2 = s.to_string(),
@@ -196,7 +201,22 @@ struct RefSigners {
 
 /// Observation (2): signatures made over the reference bytes are accepted.
 fn check_reference_accepted(acc: &mut Acc, meta: &MetadataWrapper, field: &str, s: &str, doc: &str, rs: &RefSigners) {
-    let signed_value = serde_json::to_value(meta).unwrap();
+    check_reference_value(acc, serde_json::to_value(meta).unwrap(), field, s, doc, rs);
+}
+
+/// `v` with every occurrence of the placeholder in a string value or member name replaced by `s`.
+fn substitute(v: &Value, placeholder: &str, s: &str) -> Value {
+    match v {
+        Value::String(t) => Value::String(t.replace(placeholder, s)),
+        Value::Array(a) => Value::Array(a.iter().map(|x| substitute(x, placeholder, s)).collect()),
+        Value::Object(o) => Value::Object(o.iter().map(|(k, x)| (k.replace(placeholder, s), substitute(x, placeholder, s))).collect()),
+        other => other.clone(),
+    }
+}
+
+/// The same for a signed part given as JSON (so that the text the foreign signer wrote does not
+/// pass through the library before it is signed).
+fn check_reference_value(acc: &mut Acc, signed_value: Value, field: &str, s: &str, doc: &str, rs: &RefSigners) {
     let Ok(reference) = olpc::encode(&signed_value) else { return };
     let rng = ring::rand::SystemRandom::new();
     let cases: Vec<(&str, &'static keys::Key, Vec<u8>)> = vec![
@@ -519,6 +539,37 @@ pub fn run(tier: Tier) -> i32 {
             }
         }
         acc.note_n("path_spellings", PATH_SPELLINGS.len() as u64);
+        // the same strings put into the JSON text of the document, not through the library's
+        // constructors: what a foreign signer wrote reaches the library only through its reader
+        let token = "PLACEHOLDERTOKEN";
+        let templates: Vec<(&str, &str, Value)> = LINK_FIELDS.iter().chain(["material-path-whole", "product-path-whole"].iter()).map(|f| ("link", *f, serde_json::to_value(link_with(f, token)).unwrap())).chain(LAYOUT_FIELDS.iter().map(|f| ("layout", *f, serde_json::to_value(layout_with(f, token)).unwrap()))).collect();
+        let mut texts: Vec<String> = PATH_SPELLINGS.iter().map(|x| x.to_string()).collect();
+        texts.extend(crit_strings(1));
+        texts.extend(["\t".to_string(), "a\nb".to_string(), " x ".to_string(), "\u{e9}".to_string(), "A".to_string()]);
+        for (doc, f, tpl) in &templates {
+            for t in &texts {
+                let v = substitute(tpl, token, t);
+                acc.nontrivial += 1;
+                check_reference_value(&mut acc, v, &format!("{f}(text)"), t, doc, &rs);
+            }
+        }
+        // key ids as a signer elsewhere may have written them into a step's authorised list: upper
+        // case, one letter in upper case, not hex at all (64 characters is all the format asks for)
+        let ida = keys::get("ed1").id();
+        let mut one: Vec<char> = ida.chars().collect();
+        if let Some(c) = one.iter_mut().find(|c| c.is_ascii_alphabetic()) {
+            *c = c.to_ascii_uppercase();
+        }
+        for idtext in [ida.to_uppercase(), one.into_iter().collect::<String>(), "Z".repeat(64), format!("{}{}", &ida[..32], ida[32..].to_uppercase())] {
+            let meta = layout_with("step-pubkey", &idtext);
+            acc.nontrivial += 1;
+            check_signed_bytes(&mut acc, &meta, "step-pubkey", &idtext, "layout", &rs.ed);
+            check_reference_accepted(&mut acc, &meta, "step-pubkey", &idtext, "layout", &rs);
+            // and with the id put into the JSON text, not through the library's KeyId
+            let mut v = serde_json::to_value(layout_with("readme", "r")).unwrap();
+            v["steps"][0]["pubkeys"] = json!([idtext]);
+            check_reference_value(&mut acc, v, "step-pubkey(text)", &idtext, "layout", &rs);
+        }
     }
     // (D) documents made and signed by the Python reference implementation, through the
     // parser of the library and Metablock::verify
@@ -537,7 +588,7 @@ pub fn run(tier: Tier) -> i32 {
     crate::envprobe::judge(&mut acc, "C11:", &mut c.extra);
     c.acc = acc;
     c.rule = format!(
-        "(A) every scalar of the tier's set as the whole `name` of a link (stdout / readme on a subset); (B) every string of length <= {k} over {{\\, \", n, LF, a}} in each of {} link fields and {} layout fields, via Metablock::new and via the builder, plus reference-made Ed25519/ECDSA/RSA signatures fed to verify; (B2) the structural value families of C16 (digest shapes, negative / extreme numbers, every rule form, key tables); (B3) strings of 15..4097 (70001) characters in stdout / readme / an environment name; (B4) 20 not-normalised path spellings (dot segments, doubled / trailing separators, back-slashes) as a whole material path, product path, rule pattern, MATCH pattern and MATCH prefixes, with reference-made signatures; (D) the four Python-made, Python-signed documents through the parser of the library and Metablock::verify; before every signing the escaped canonical form of the same value is computed on the same thread (no influence allowed); (C) C0 controls and captured-output shapes in every field; key ids of all fixture keys and hash-algorithm-list variants. distinct_nontrivial = scalars + (field, string) pairs + key-id cases",
+        "(A) every scalar of the tier's set as the whole `name` of a link (stdout / readme on a subset); (B) every string of length <= {k} over {{\\, \", n, LF, a}} in each of {} link fields and {} layout fields, via Metablock::new and via the builder, plus reference-made Ed25519/ECDSA/RSA signatures fed to verify; (B2) the structural value families of C16 (digest shapes, negative / extreme numbers, every rule form, key tables); (B3) strings of 15..4097 (70001) characters in stdout / readme / an environment name; (B4) 20 not-normalised path spellings (dot segments, doubled / trailing separators, back-slashes) as a whole material path, product path, rule pattern, MATCH pattern and MATCH prefixes, with reference-made signatures, and 4 spellings of a key id in a step's authorised list (upper case, mixed, not hex); every field x path spellings and critical strings once more with the string put into the JSON text of the document instead of through the library's constructors; (D) the four Python-made, Python-signed documents through the parser of the library and Metablock::verify; before every signing the escaped canonical form of the same value is computed on the same thread (no influence allowed); (C) C0 controls and captured-output shapes in every field; key ids of all fixture keys and hash-algorithm-list variants. distinct_nontrivial = scalars + (field, string) pairs + key-id cases",
         LINK_FIELDS.len(),
         LAYOUT_FIELDS.len()
     );
